@@ -565,6 +565,30 @@ func engineDepth(rep *Report) {
 	for ti, s := range subs {
 		tn := string(s.FullName)
 		d := s.Zero.ProtoReflect().Descriptor()
+		// map values claiming bytes behind their entry (self-recursive map values: each level would be decoded twice)
+		fsm := d.Fields()
+		for i := 0; i < fsm.Len(); i++ {
+			fd := fsm.Get(i)
+			if !fd.IsMap() || fd.MapValue().Kind() != protoreflect.MessageKind || fd.MapValue().Message().FullName() != d.FullName() {
+				continue
+			}
+			for _, k := range []int{12, 48} {
+				var rest []byte
+				for j := 0; j < k; j++ {
+					ent := appendVarint(appendVarint(nil, 2<<3|2), uint64(len(rest)))
+					rec := appendVarint(appendVarint(nil, uint64(fd.Number())<<3|2), uint64(len(ent)))
+					rest = append(append(rec, ent...), rest...)
+				}
+				setProgress(ti, 900000000+k, 4)
+				rep.Eval("C06", []byte(fmt.Sprintf("map-overrun|%s|%d", tn, k)), true)
+				rep.Count("C06", "map-value-overrun-chains", 1)
+				m := newOf(s.Zero)
+				pan, pmsg := safely(func() { _ = proto.Unmarshal(rest, m) })
+				if pan {
+					rep.Violate("C06", "total/map-value-overrun/panic", tn, pmsg, replayCase{Engine: "depth", Type: tn, Seed: *flagSeed, Value: hx(rest)})
+				}
+			}
+		}
 		cycles := findCycles(d)
 		if len(cycles) == 0 {
 			continue
